@@ -252,3 +252,30 @@ def specs(tier, seed, carve):
             out.append(dict(id="cut2/%s/%d" % (st, lo), fn="cut2", params={"stream": st, "alo": lo, "ahi": min(lo + step, n + 1)}, timeout=400 if q else 1800,
                             bound="every pair of cut positions a <= b of stream %s with a in [%d, %d)" % (st, lo, min(lo + step, n + 1))))
     return out
+
+
+# ---------------------------------------------------------------------------------------------------------------------
+# wire-level histories with this property's monitor (harness/uni.py): bytes in, bytes out, reference model of the far ends
+from typing import List as _List  # noqa: E402
+from harness import uni as U  # noqa: E402
+
+
+def uni_history(ev: _List[int]) -> bool:
+    """
+    pre: len(ev) == P["depth"] and all(0 <= e < len(U.EVENTS) for e in ev)
+    pre: all(ev[i] == P["prefix"][i] for i in range(len(P["prefix"])))
+    post: _
+    """
+    return U.history_body(ev, P)
+
+
+_own_specs = specs
+
+
+def specs(tier, seed, carve):  # noqa: F811
+    return _own_specs(tier, seed, carve) + U.specs(PROPERTY, tier, seed)
+
+
+FUNCTIONS_ENCODED = list(FUNCTIONS_ENCODED) + U.FUNCTIONS
+BOUNDS = {k: v + "; " + U.BOUNDS[k] for k, v in BOUNDS.items()}
+OUTSIDE = list(OUTSIDE) + U.OUTSIDE
